@@ -213,6 +213,9 @@ SwapPc(x) == IF x = 0 THEN 0 ELSE IF x <= 6 THEN x + 6 ELSE x - 6
 Mirror(pos) == [ b |-> [s \in Sq |-> SwapPc(pos.b[65 - s])],
                  turn |-> Opp(pos.turn), rights |-> 0, ep |-> 0 ]
 
+\* the same with the en-passant target carried along (castling rights do not survive a rotation of the board)
+MirrorEp(pos) == [Mirror(pos) EXCEPT !.ep = IF pos.ep = 0 THEN 0 ELSE 65 - pos.ep]
+
 StartBoard ==
   << 4,2,3,5,6,3,2,4,  1,1,1,1,1,1,1,1,
      0,0,0,0,0,0,0,0,  0,0,0,0,0,0,0,0,  0,0,0,0,0,0,0,0,  0,0,0,0,0,0,0,0,
